@@ -4,7 +4,7 @@
    user code. Proofs: Proofs/SchedP.v. *)
 From Coq Require Import List Arith Bool.
 Import ListNotations.
-From LCC Require Import Base.Util Model.Proj Model.Sched Proofs.SchedP.
+From LCC Require Import Base.Util Model.Proj Model.Sched Model.Graph Model.Fixture Model.Deps Proofs.SchedP Proofs.GraphP Proofs.DepsP Proofs.ProjectP.
 
 (* no deadlock: in every reachable state in which no worker thread has been killed, as long as the main loop is not over
    some task-level move is enabled *)
@@ -52,6 +52,58 @@ Theorem C01_wf_check_sound : forall g order, wf_b g order = true -> wf g (fun i 
 Proof. exact wf_b_sound. Qed.
 Print Assumptions C01_wf_check_sound.
 
+(* ... and for graphs that come from projects no check is needed at all: the task graph runner.build_tasks builds
+   (Model/Graph.v: both passes, every suite tree, every fixture schedule [si], with or without --force-disabled) is well
+   formed for EVERY project whose depends_on relation is acyclic, i.e. ranked by some [tr] (what project validation
+   establishes, C04_resolve_complete): every dependency is a task of the graph and the rank [rank_of g tr] decreases along
+   every dependency.  (The certificate above stays in the correspondence: it is evaluated on the implementation's graph.) *)
+Theorem C01_project_graph_wellformed : forall si force suites g (tr : path -> nat),
+  build_tasks si force suites = Some g ->
+  (forall p d, In d (deps_lookup (deps_table suites) p) -> tr d < tr p) ->
+  wf g (rank_of g tr).
+Proof. exact build_tasks_wf. Qed.
+Print Assumptions C01_project_graph_wellformed.
+
+(* hence: the run of any such project never deadlocks, whatever the thread count, the results and the interleaving *)
+Theorem C01_no_deadlock_for_projects : forall si force suites g (tr : path -> nat) n sof s,
+  build_tasks si force suites = Some g ->
+  (forall p d, In d (deps_lookup (deps_table suites) p) -> tr d < tr p) ->
+  1 <= n -> reachable g n sof s -> dead s = [] -> pc s <> PDone ->
+  exists m s', task_move m = true /\ step g n sof s m = Some s'.
+Proof.
+  intros si force suites g tr n sof s Hg Htr Hn R. apply (progress g (rank_of g tr) n sof s); [|exact Hn|].
+  - exact (build_tasks_wf si force suites g tr Hg Htr).
+  - apply (reachable_Inv g n sof s Hn R).
+Qed.
+Print Assumptions C01_no_deadlock_for_projects.
+
+(* ... and the acyclicity hypothesis is what project validation establishes: if the dependency resolution of
+   suite/core.py (Model/Deps.v) accepts the scheduled suites (test paths unique, as the loader guarantees: C13), then
+   build_tasks does return a graph (every depends_on target has its task), the graph is well formed, and hence the run
+   never deadlocks whatever the thread count, the results and the interleaving; with C01_terminates and
+   C01_each_task_exactly_once (which need no hypothesis on the graph) this is the property for every validated project *)
+Theorem C01_validated_project_graph : forall ssuites asuites l si force,
+  NoDup (test_paths ssuites) ->
+  sched_consistent (find_test ssuites) (find_test asuites) ->
+  resolve_tests_dependencies ssuites asuites = Ok l ->
+  exists g rk, build_tasks si force ssuites = Some g /\ wf g rk.
+Proof. exact validated_project_has_wellformed_graph. Qed.
+Print Assumptions C01_validated_project_graph.
+
+Theorem C01_no_deadlock_for_validated_projects : forall ssuites asuites l si force,
+  NoDup (test_paths ssuites) ->
+  sched_consistent (find_test ssuites) (find_test asuites) ->
+  resolve_tests_dependencies ssuites asuites = Ok l ->
+  exists g, build_tasks si force ssuites = Some g /\
+    forall n sof s, 1 <= n -> reachable g n sof s -> dead s = [] -> pc s <> PDone ->
+      exists m s', task_move m = true /\ step g n sof s m = Some s'.
+Proof.
+  intros ssuites asuites l si force Hu Hc Hr.
+  destruct (validated_project_has_wellformed_graph ssuites asuites l si force Hu Hc Hr) as [g [rk [Hg W]]].
+  exists g. split; [exact Hg|]. intros n sof s Hn R. apply (progress g rk n sof s W Hn). apply (reachable_Inv g n sof s Hn R).
+Qed.
+Print Assumptions C01_no_deadlock_for_validated_projects.
+
 (* F15 (why run_task must catch BaseException; fixed in /repo): if a worker thread were killed by a BaseException raised
    by user code before the completion put (move MDie), the run would never end:
    a reachable state with a main loop that is not over and no enabled task move (other than the user pressing Ctrl-C,
@@ -79,4 +131,33 @@ Proof.
             MTake 2 (Skip (Some (RTaskFailed 1))); MFinish 2 (ResSkipped (Some (RTaskFailed 1))); MMain 2;
             MTake 3 (Skip (Some (RTaskFailed 1))); MFinish 3 (ResSkipped (Some (RTaskFailed 1))); MMain 3].
     eexists. split; vm_compute; reflexivity.
+Qed.
+
+(* non-vacuity of the project-level theorems: a project with a cross-suite diamond of depends_on edges has a graph and
+   its depends_on relation is ranked *)
+Example C01_witness_project :
+  let hk := mkHooks None None None None in
+  let s1 := Suite 5 false hk [] [mkTest 7 false [] [] [] []; mkTest 8 false [[5; 7]] [] [] []] [] in
+  let s2 := Suite 6 false hk [] [mkTest 9 false [[5; 7]; [5; 8]] [] [] []] [] in
+  let tr := fun p : path => match p with [5; 7] => 0 | [5; 8] => 1 | [6; 9] => 2 | _ => 0 end in
+  (exists g, build_tasks (mkSinfo false (fun _ _ => false)) false [s1; s2] = Some g) /\
+  (forall p d, In d (deps_lookup (deps_table [s1; s2]) p) -> tr d < tr p).
+Proof.
+  split; [eexists; vm_compute; reflexivity|].
+  apply ranked_b_sound. vm_compute. reflexivity.
+Qed.
+
+(* ... and that project passes the dependency resolution with unique test paths: the hypotheses of the
+   validated-project theorems are satisfiable *)
+Example C01_witness_validated_project :
+  let hk := mkHooks None None None None in
+  let s1 := Suite 5 false hk [] [mkTest 7 false [] [] [] []; mkTest 8 false [[5; 7]] [] [] []] [] in
+  let s2 := Suite 6 false hk [] [mkTest 9 false [[5; 7]; [5; 8]] [] [] []] [] in
+  NoDup (test_paths [s1; s2]) /\ sched_consistent (find_test [s1; s2]) (find_test [s1; s2]) /\
+  exists l, resolve_tests_dependencies [s1; s2] [s1; s2] = Ok l.
+Proof.
+  split; [|split].
+  - vm_compute. repeat constructor; simpl; intuition discriminate.
+  - intros p t H. exists t. split; [exact H|reflexivity].
+  - eexists. vm_compute. reflexivity.
 Qed.
